@@ -262,6 +262,7 @@ void PCA(matrix *mx, int scaling, size_t npc, PCAMODEL* model, ssignal *s)
         if(verif_nipals_tick != NULL) verif_nipals_tick(1);
         #endif
         /* Step 2: projection of t' in E (t'*E) */
+        DVectorSet(p, 0.f); /* the product accumulates into p: start from zero at every iteration */
         MT_DVectorMatrixDotProduct(E, t, p);
         /* calc the vectors product t'*t = Sum(t[i]^2) */
         mod_t = DVectorDVectorDotProd(t, t);
